@@ -17,6 +17,7 @@
    multiple of 512 and free+watermark+pagecache+slab < 2^61 bytes; vacuous when the
    estimate's watermark formula is not evaluated). *)
 From PV Require Import C08.Spec C08.ProofsRound C08.ProofsVM C08.ProofsSwap C08.ProofsVM2 C08.ProofsBig.
+From PV Require Import C08.PyGen Gen.C08_Tables C08.ProofsGen.
 
 (* ------------------------------------------------------------------ virtual_memory() *)
 (* for every kernel record that has MemTotal and MemFree the call succeeds and returns exactly
@@ -329,3 +330,43 @@ Theorem C08_memory_percent_stale :
     r = (value * 100, 1000 * 1024) /\ value = 500 * 1024.
 Proof. exact memory_percent_stale. Qed.
 Print Assumptions C08_memory_percent_stale.
+
+(* ------------------------------------------------------------------ tie to the source by translation
+   [gen_vm_prog] (coq/Gen/C08_Tables.v) is written on every run by props/_c08_gen.py from the body of
+   psutil/_pslinux.py:virtual_memory() of the tree under check -- every statement after the meminfo
+   parsing loop: the try/except KeyError ladders with their missing_fields.append calls, used and
+   its negative fallback, the MemAvailable / == 0 / calculate_avail_vmem decision, the < 0 and
+   > total clamps, usage_percent(..., round_=1), the svmem(...) argument order -- in the statement
+   language of C08/PyGen.v ([run_vm] = its interpreter; [mems] and the outcome of
+   calculate_avail_vmem(mems) are arguments). *)
+(* for EVERY mems dict, page size and zoneinfo state, the translated body returns exactly the
+   model's record (in svmem order) and warning names, and raises exactly when the model does *)
+Theorem C08_gen_vm_prog_model : forall pagesize d zoneinfo,
+  run_vm d (calc_avail pagesize d zoneinfo) gen_vm_prog = omap vm_tuple (vm_of_dict pagesize d zoneinfo).
+Proof. exact gen_vm_prog_model. Qed.
+Print Assumptions C08_gen_vm_prog_model.
+
+(* with the parser in front, on ANY meminfo bytes *)
+Theorem C08_gen_virtual_memory_model : forall lenient pagesize meminfo zoneinfo,
+  (do d <- parse_meminfo lenient meminfo; run_vm d (calc_avail pagesize d zoneinfo) gen_vm_prog) =
+  omap vm_tuple (virtual_memory_z lenient pagesize meminfo zoneinfo).
+Proof. exact gen_virtual_memory_model. Qed.
+Print Assumptions C08_gen_virtual_memory_model.
+
+(* the translated body against the specification: on every well-formed kernel record the demanded
+   tuple (total, available, percent, used, free, active, inactive, buffers, cached, shared, slab)
+   and the demanded warning names *)
+Theorem C08_gen_virtual_memory_spec : forall k,
+  wf_kernel k = true -> has_total_free k = true -> float_exact k = true ->
+  (do d <- parse_meminfo true (k_meminfo (k_mem k));
+   run_vm d (calc_avail (k_pagesize k) d (zs_of_opt (option_map k_zoneinfo (k_zone k)))) gen_vm_prog)
+  = Val (vm_tuple (spec_vm k)).
+Proof. exact gen_virtual_memory_spec. Qed.
+Print Assumptions C08_gen_virtual_memory_spec.
+
+(* svmem's field order in the source is the order in which [vm_tuple] lists the record *)
+Theorem C08_gen_svmem_fields :
+  gen_svmem_fields = [bs "total"; bs "available"; bs "percent"; bs "used"; bs "free"; bs "active"; bs "inactive";
+                      bs "buffers"; bs "cached"; bs "shared"; bs "slab"].
+Proof. exact gen_svmem_fields_model. Qed.
+Print Assumptions C08_gen_svmem_fields.
